@@ -400,10 +400,18 @@ ROUNDS = dict(
              "thorough": [("MPTPersist", "MPTPersist_mut_origin.cfg", "DeadNotLive"), ("MPTPersist", "MPTPersist_mut_slack.cfg", "Safe")]},
     gen={"quick": [dict(module="MPTTxn_MC", cfg="MPTTxn_gen_ex.cfg", workers=8),
                    dict(module="MPTTxn_MC", cfg="MPTTxn_gen_sim.cfg", workers=1,
-                        extra=["-simulate", "num=1500", "-depth", "12", "-seed", "{seed}"])],
+                        extra=["-simulate", "num=1500", "-depth", "12", "-seed", "{seed}"]),
+                   # structured exhaustive family: 2 direct inserts, one child, every 3..4 child operations, merge
+                   dict(module="MPTTxn_MC", cfg="MPTTxn_gen_struct.cfg", workers=8),
+                   # deep behaviours over two paths / two values / two children: overwrite-and-restore, split-and-collapse
+                   dict(module="MPTTxn_MC", cfg="MPTTxn_gen_deep.cfg", workers=1,
+                        extra=["-simulate", "num=2500", "-depth", "13", "-seed", "{seed}"])],
          "thorough": [dict(module="MPTTxn_MC", cfg="MPTTxn_gen_ex5.cfg", workers=8, timeout=3000),
                       dict(module="MPTTxn_MC", cfg="MPTTxn_gen_sim.cfg", workers=1, timeout=3000,
-                           extra=["-simulate", "num=40000", "-depth", "12", "-seed", "{seed}"])]},
+                           extra=["-simulate", "num=40000", "-depth", "12", "-seed", "{seed}"]),
+                      dict(module="MPTTxn_MC", cfg="MPTTxn_gen_struct.cfg", workers=8),
+                      dict(module="MPTTxn_MC", cfg="MPTTxn_gen_deep.cfg", workers=1, timeout=3000,
+                           extra=["-simulate", "num=40000", "-depth", "13", "-seed", "{seed}"])]},
     exec_args=lambda tier, seed: (["-n", 300, "-nblock", 300] if tier == "quick" else ["-n", 8000, "-nblock", 8000]),
     flags={"C03": {"isolation", "content", "mergeres", "mergeview", "corrupt", "rootclash", "liveset", "res", "panic", "unknown-op"},
            "C04": {"incomplete", "damaged", "reopen", "reopenpruned", "saveres", "saveroot", "savedeletes", "unknownstart"},
